@@ -48,7 +48,7 @@ def area_value(a, U):
     return (a[0] * math.pi / 4 + a[1]) / a[2] / (U * U)
 
 
-def replay_rotate(ctx, rnd, st, wlo, whi, idx):
+def replay_rotate(ctx, rnd, st, wlo, whi, idx, pid='C15'):
     from regions import PixCoord
     s, (pivot, e), m = st['shape'], st['arg'], st['res']
     U = 2
@@ -67,29 +67,29 @@ def replay_rotate(ctx, rnd, st, wlo, whi, idx):
         ang = rot_angle(e, idx)
         rot = region.rotate(centre, ang)
     except Exception as ex:
-        ctx.violation(f"C15|rotate|{kind_sig(s)}|{type(ex).__name__}", f'rotate raised {ex!r}', {'shape': s, 'pivot': pivot, 'dir': e})
+        ctx.violation(f"{pid}|rotate|{kind_sig(s)}|{type(ex).__name__}", f'rotate raised {ex!r}', {'shape': s, 'pivot': pivot, 'dir': e})
         return
     case = {'shape': s, 'pivot_units': pivot, 'dir': e, 'frame': vars(fr)}
     ctx.case(('rotate', geom.shape_key(s), tuple(pivot), tuple(e)), geom.nontrivial_answers(m['win']) or s['k'] in ('point', 'line', 'text'))
     if geom.fingerprint(region) != before:
-        ctx.violation(f'C15|mutated|{kind_sig(s)}', 'rotate modified the original region', case)
+        ctx.violation(f'{pid}|mutated|{kind_sig(s)}', 'rotate modified the original region', case)
         return
     if type(rot) is not type(region):
-        ctx.violation(f'C15|class|{kind_sig(s)}', f'rotate returned {type(rot).__name__}', case)
+        ctx.violation(f'{pid}|class|{kind_sig(s)}', f'rotate returned {type(rot).__name__}', case)
         return
     if dict(rot.meta) != dict(region.meta) or dict(rot.visual) != dict(region.visual):
-        ctx.violation(f'C15|meta|{kind_sig(s)}', 'rotate changed meta/visual', case)
+        ctx.violation(f'{pid}|meta|{kind_sig(s)}', 'rotate changed meta/visual', case)
         return
     why = geom.params_close(geom.project(rot), geom.expected(m['rot'], fr2), 1e-9, scale=max(scale, abs(fr.tx), abs(fr.ty), 1.0) * 20)
     if why:
-        ctx.violation(f'C15|params|{kind_sig(s)}', f'rotated parameters differ from the model: {why}', case)
+        ctx.violation(f'{pid}|params|{kind_sig(s)}', f'rotated parameters differ from the model: {why}', case)
         return
     if s['k'] != 'compound':
         want = area_value(m['area'], U) * scale * scale
         got = float(rot.area)
         tol = 1e-12 * max(want, (30.0 * scale) ** 2)     # self-intersecting polygons have zero signed area
         if abs(got - want) > tol or abs(got - float(region.area)) > tol:
-            ctx.violation(f'C15|area|{kind_sig(s)}', f'area after rotation {got!r}, before {float(region.area)!r}, model {want!r}', case)
+            ctx.violation(f'{pid}|area|{kind_sig(s)}', f'area after rotation {got!r}, before {float(region.area)!r}, model {want!r}', case)
             return
     # membership at rotated lattice points
     xs_u, ys_u = geom.window(wlo, whi)
@@ -108,13 +108,13 @@ def replay_rotate(ctx, rnd, st, wlo, whi, idx):
     if len(bad):
         i = int(bad[0])
         case.update(point_units=[int(xs_u[i]), int(ys_u[i])], model=int(model[i]), real=int(out[i]))
-        ctx.violation(f'C15|member|{kind_sig(s)}', f'{len(bad)} rotated positions answered differently from the original positions', case)
+        ctx.violation(f'{pid}|member|{kind_sig(s)}', f'{len(bad)} rotated positions answered differently from the original positions', case)
         return
     # rotate back
     try:
         back = rot.rotate(centre, -ang)
     except Exception as ex:
-        ctx.violation(f"C15|rotate-back|{kind_sig(s)}|{type(ex).__name__}", f'rotate back raised {ex!r}', case)
+        ctx.violation(f"{pid}|rotate-back|{kind_sig(s)}|{type(ex).__name__}", f'rotate back raised {ex!r}', case)
         return
     want0 = geom.expected(s, fr)
     for sub in _walk(want0):
@@ -125,7 +125,7 @@ def replay_rotate(ctx, rnd, st, wlo, whi, idx):
         if abs(math.remainder(d, 2 * math.pi)) > 1e-9:
             why = f'angle differs by {d} rad'
     if why:
-        ctx.violation(f'C15|back|{kind_sig(s)}', f'rotating back does not restore the parameters: {why}', case)
+        ctx.violation(f'{pid}|back|{kind_sig(s)}', f'rotating back does not restore the parameters: {why}', case)
     elif idx % 701 == 0:
         ctx.sample({'shape': s, 'pivot_units': pivot, 'dir': e, 'rotated_model': m['rot']})
 
